@@ -185,6 +185,13 @@ def place_chops(sx, blocks, spec, lo=1, hi=6):
             blocks[i].chop(ax, Chop(count=2))
             chops[(i, ax)] = 2
             continue
+        if mode == "multi":
+            # a multigraded direction: two divisions with their own (symbolic) counts; the direction's count is their sum
+            n1, n2 = sx.integer(f"n_{i}_{ax}_a", 1, 3), sx.integer(f"n_{i}_{ax}_b", 1, 3)
+            blocks[i].chop(ax, Chop(length_ratio=0.4, count=n1))
+            blocks[i].chop(ax, Chop(length_ratio=0.6, count=n2))
+            chops[(i, ax)] = n1 + n2
+            continue
         if mode == "sym" and not sx.flag(f"chop_{i}_{ax}"):
             continue
         n = sx.integer(f"n_{i}_{ax}", lo, hi)
